@@ -86,25 +86,30 @@ def build_txns(data_atoms, names, rnd, variant):
     n1 = ''.join(NAME_TEXT[a] for a in names[0])
     n2 = ''.join(NAME_TEXT[a] for a in names[1])
     d = datetime.datetime
+    # figures that are EXACTLY zero are figures too: no refunds at all while a transfer goes out (credits 0, a merchant with a
+    # negative total), or refunds only (spending 0)
+    zero_credits = variant in (4, 9)
+    zero_spending = variant == 10
+    sg = -1.0 if zero_spending else 1.0
     txns = [
-        dict(date=d(2025, 1, 5), raw_description=desc + ' one', description=n1, amount=40.25, merchant=n1, category='Food', subcategory='Grocery',
+        dict(date=d(2025, 1, 5), raw_description=desc + ' one', description=n1, amount=sg * 40.25, merchant=n1, category='Food', subcategory='Grocery',
              source='Card', location='WA', tags=['weekly', desc[:12].strip().lower() or 't'], extra_fields={'note': desc}),
-        dict(date=d(2025, 2, 6), raw_description=desc + ' two', description=n1, amount=-10.0 if variant % 2 else 12.5, merchant=n1, category='Food',
+        dict(date=d(2025, 2, 6), raw_description=desc + ' two', description=n1, amount=(-12.5 if zero_spending else 12.5 if zero_credits else (-10.0 if variant % 2 else 12.5)), merchant=n1, category='Food',
              subcategory='Grocery', source='Bank "B"', location=None, tags=[]),
-        dict(date=d(2025, 2, 7), raw_description='other ' + desc, description=n2, amount=100.0, merchant=n2, category='Bills & <Co>', subcategory='',
+        dict(date=d(2025, 2, 7), raw_description='other ' + desc, description=n2, amount=sg * 100.0, merchant=n2, category='Bills & <Co>', subcategory='',
              source='Card', location=None, tags=['recurring']),
         dict(date=d(2025, 1, 31), raw_description='PAYROLL ' + desc, description='Employer', amount=-3000.0, merchant='Employer', category='Income',
              subcategory='Salary', source='Bank "B"', location=None, tags=['income']),
-        dict(date=d(2025, 2, 1), raw_description='TO SAVINGS', description='Savings', amount=500.0, merchant='Savings', category='Transfers',
+        dict(date=d(2025, 2, 1), raw_description='TO SAVINGS', description='Savings', amount=-500.0 if zero_credits else 500.0, merchant='Savings', category='Transfers',
              subcategory='', source='Card', location=None, tags=['Transfer']),
         dict(date=d(2025, 2, 2), raw_description='401K', description='Fidelity', amount=-250.0 if variant % 3 == 0 else 250.0, merchant='Fidelity',
              category='Invest', subcategory='', source='Card', location=None, tags=['investment']),
     ]
     if len(names) > 2:
         n3 = ''.join(NAME_TEXT[a] for a in names[2])
-        txns.append(dict(date=d(2025, 2, 9), raw_description='third ' + desc, description=n3, amount=7.75, merchant=n3, category='Food',
+        txns.append(dict(date=d(2025, 2, 9), raw_description='third ' + desc, description=n3, amount=sg * 7.75, merchant=n3, category='Food',
                          subcategory='Grocery', source='Card', location=None, tags=[]))
-    if variant % 4 == 3:
+    if variant % 4 == 3 and not zero_credits:
         txns.append(dict(date=d(2025, 3, 3), raw_description='REFUND ' + desc, description='Returns', amount=-75.5, merchant='Returns', category='Shopping',
                          subcategory='Returns', source='Card', location=None, tags=[]))
     return txns
